@@ -449,6 +449,7 @@ func (c *FailoverController) initiateFailover(reason string) error {
 // failover timer that triggered it, or 0 when it was not triggered by a timer.
 func (c *FailoverController) executeFailover(reason string, gen uint64) {
 	verifGate(c, "executeFailover")
+	defer verifGate(c, "executeFailover:exit")
 	c.mu.Lock()
 
 	if gen != 0 && gen != c.failoverGen {
@@ -560,6 +561,7 @@ func (c *FailoverController) initiateFailback(reason string) error {
 // executeFailback performs the actual failback.
 func (c *FailoverController) executeFailback(reason string) {
 	verifGate(c, "executeFailback")
+	defer verifGate(c, "executeFailback:exit")
 	c.mu.Lock()
 
 	if c.state != FailoverStateFailbackPending {
